@@ -21,6 +21,7 @@ import (
 	"errors"
 	"fmt"
 	"reflect"
+	"sort"
 
 	"github.com/cloudwego/eino/components/document"
 	"github.com/cloudwego/eino/components/embedding"
@@ -853,6 +854,12 @@ func (g *graph) compile(ctx context.Context, opt *graphCompileOptions) (*composa
 		if err != nil {
 			return nil, err
 		}
+		// a data-only edge (Workflow: WithNoDirectDependency) must not close a loop either: its
+		// target would wait for a value that is only produced after the target itself has run
+		err = validateDAGWithDataEdges(r.chanSubscribeTo, controlPredecessors, dataPredecessors)
+		if err != nil {
+			return nil, err
+		}
 		// in all-predecessor mode a node is triggered by its predecessors: a node that has none
 		// (no edge and no branch leads to it) could only be scheduled vacuously, on every round
 		for key := range r.chanSubscribeTo {
@@ -1128,6 +1135,53 @@ func validateDAG(chanSubscribeTo map[string]*chanCall, controlPredecessors map[s
 		if v > 0 {
 			return fmt.Errorf("DAG invalid, node[%s] has loop", k)
 		}
+	}
+	return nil
+}
+
+func validateDAGWithDataEdges(chanSubscribeTo map[string]*chanCall, controlPredecessors, dataPredecessors map[string][]string) error {
+	predecessors := make(map[string]map[string]bool, len(chanSubscribeTo))
+	successors := make(map[string][]string, len(chanSubscribeTo))
+	for node := range chanSubscribeTo {
+		predecessors[node] = make(map[string]bool)
+		for _, ps := range [][]string{controlPredecessors[node], dataPredecessors[node]} {
+			for _, pre := range ps {
+				if _, ok := chanSubscribeTo[pre]; !ok || predecessors[node][pre] {
+					continue // START, or already counted
+				}
+				predecessors[node][pre] = true
+				successors[pre] = append(successors[pre], node)
+			}
+		}
+	}
+
+	var ready []string
+	for node, ps := range predecessors {
+		if len(ps) == 0 {
+			ready = append(ready, node)
+		}
+	}
+	done := 0
+	for len(ready) > 0 {
+		node := ready[len(ready)-1]
+		ready = ready[:len(ready)-1]
+		done++
+		for _, succ := range successors[node] {
+			delete(predecessors[succ], node)
+			if len(predecessors[succ]) == 0 {
+				ready = append(ready, succ)
+			}
+		}
+	}
+	if done != len(chanSubscribeTo) {
+		var inLoop []string
+		for node, ps := range predecessors {
+			if len(ps) > 0 {
+				inLoop = append(inLoop, node)
+			}
+		}
+		sort.Strings(inLoop)
+		return fmt.Errorf("DAG invalid, nodes%v are in a loop of control and data edges", inLoop)
 	}
 	return nil
 }
